@@ -293,6 +293,17 @@ impl World {
 }
 
 fn replay_one(beh: &[Value], lean: bool) -> Option<Value> {
+    track::layout_check_start();
+    let r = replay_inner(beh, lean);
+    let (bad, want, got) = track::layout_check_stop();
+    if r.is_none() && bad > 0 {
+        return Some(json!({"step": beh.len(), "what": "memory released with a layout different from the one it was allocated with",
+            "allocated_size": want, "released_size": got, "mismatches": bad}));
+    }
+    r
+}
+
+fn replay_inner(beh: &[Value], lean: bool) -> Option<Value> {
     let mut w = World::new();
     w.lean = lean;
     for (i, ev) in beh.iter().enumerate() {
